@@ -76,6 +76,45 @@ func runE6(p *Prog, r *Report) {
 					nRng++
 					e6RangeLiteral(p, r, fn, e)
 				}
+			case *ast.IncDecStmt:
+				// P.Column++ beside P.Byte++ is a coherent shift by one; alone it is not
+				sel, ok := ast.Unparen(e.X).(*ast.SelectorExpr)
+				if !ok || !isHclPos(info.TypeOf(sel.X)) {
+					return true
+				}
+				switch sel.Sel.Name {
+				case "Line", "Column", "Byte":
+				default:
+					return true
+				}
+				nAsg++
+				other := map[string]string{"Column": "Byte", "Byte": "Column"}[sel.Sel.Name]
+				paired := false
+				if blk, ok := p.Parent(e).(*ast.BlockStmt); ok && other != "" {
+					for k, st := range blk.List {
+						if st != ast.Stmt(e) {
+							continue
+						}
+						for _, nb := range []int{k - 1, k + 1} {
+							if nb < 0 || nb >= len(blk.List) {
+								continue
+							}
+							if s2, ok := blk.List[nb].(*ast.IncDecStmt); ok && s2.Tok == e.Tok {
+								if sel2, ok := ast.Unparen(s2.X).(*ast.SelectorExpr); ok && sel2.Sel.Name == other && pathOf(info, sel2.X) == pathOf(info, sel.X) && pathOf(info, sel.X) != "" {
+									paired = true
+								}
+							}
+						}
+					}
+				}
+				if paired {
+					if sel.Sel.Name == "Column" {
+						r.Add("E6.coherent-shift", fn.Name, exprStr(sel.X)+" shifted in place", p.Pos(e), OK, "same-line shift by 1 for both column and byte", true)
+					}
+				} else {
+					r.Add("E6.component-assign", fn.Name, "assignment to "+exprStr(e.X), p.Pos(e), Violated,
+						"a single component of a position is stepped separately (line, column and byte can no longer be kept consistent by construction)", true)
+				}
 			case *ast.AssignStmt:
 				for i, l := range e.Lhs {
 					sel, ok := ast.Unparen(l).(*ast.SelectorExpr)
